@@ -225,21 +225,27 @@ CONDS = ['principal == resource', '1 < 2', '1 <= 2', '2 > 1', '2 >= 1', '1 != 2'
          'principal.a.containsAny(principal.b) || principal.a in principal.b', 'principal.a.getTag(principal.b) == principal.b.hasTag(principal.a)']
 
 
+POLICIES = ['@a("x") @b("") @c permit(principal, action, resource);', 'forbid(principal == User::"a", action == Action::"x", resource == Photo::"p") unless { 1 < 2 };',
+            'permit(principal in Group::"g", action in [Action::"x", Action::"y"], resource in Album::"z");', 'permit(principal is User, action in [], resource is Photo);',
+            'forbid(principal is User in Group::"g", action in Action::"all", resource is Photo in Album::"z") when { true } unless { false };',
+            '@id("p") permit(principal, action, resource) when { principal.a } when { resource.b } unless { context.c };']
+
+
 def battery_replay(ctx, name, role, why):
     cache = ctx.__dict__.setdefault('_c06_battery', {})
     if 'result' not in cache:
         cache['result'] = None
-        for cnd in CONDS:
-            a = ctx.native.ask({'op': 'est_roundtrip', 'policy': W % cnd})
+        for cnd in [W % c for c in CONDS] + POLICIES:
+            a = ctx.native.ask({'op': 'est_roundtrip', 'policy': cnd})
             if 'equal' not in a:
                 return ctx.mismatch(name, f'est_roundtrip probe `{cnd}`: {a}')
             if not a['equal']:
-                cache['result'] = (f'`{W % cnd}` becomes `{a.get("back")}` after policy -> JSON -> policy', {'op': 'est_roundtrip', 'policy': W % cnd})
+                cache['result'] = (f'`{cnd}` becomes `{a.get("back")}` after policy -> JSON -> policy', {'op': 'est_roundtrip', 'policy': cnd})
                 break
     r = cache['result']
     if r:
         return ctx.violation(name, role, f'{why}; natively: {r[0]}', r[1])
-    return ('unreplayed', f'{why}; but the {len(CONDS)} policies of the battery survive policy -> JSON -> policy unchanged')
+    return ('unreplayed', f'{why}; but the {len(CONDS) + len(POLICIES)} policies of the battery survive policy -> JSON -> policy unchanged')
 
 
 def battery_selftest(ctx):
@@ -267,20 +273,229 @@ def nodes():
     return out
 
 
+# ---------------------------------------------------------------------------------------------------------------- scope constraints
+
+PRC = 'ast::policy::PrincipalOrResourceConstraint'
+ER = 'ast::policy::EntityReference'
+
+
+def constraint_round_trip(ctx, who, label, build, action=False):
+    """ast constraint -> est constraint -> ast constraint for one constraint shape; entity uids travel as opaque JSON tokens that convert back to the same uid"""
+    P = ctx.prog('core')
+    if action:
+        f1 = [f for f in P.find(r'>::from$', 'cedar-policy-core/src/est/scope_constraints.rs') if len(f.args) == 1 and f.args[0][1].endswith('ast::policy::ActionConstraint')]
+        f2 = [f for f in P.find(r'>::try_from$', 'cedar-policy-core/src/est/scope_constraints.rs') if len(f.args) == 1 and f.args[0][1].endswith('scope_constraints::ActionConstraint') and 'ActionConstraint' in f.ret]
+    else:
+        est_ty = 'scope_constraints::' + ('PrincipalConstraint' if who == 'principal' else 'ResourceConstraint')
+        f1 = [f for f in P.find(r'>::from$', 'cedar-policy-core/src/est/scope_constraints.rs') if len(f.args) == 1 and f.args[0][1].endswith('PrincipalOrResourceConstraint') and f.ret.endswith(est_ty)]
+        f2 = [f for f in P.find(r'>::try_from$', 'cedar-policy-core/src/est/scope_constraints.rs') if len(f.args) == 1 and f.args[0][1].endswith(est_ty) and 'PrincipalOrResourceConstraint' in f.ret]
+    if len(f1) != 1 or len(f2) != 1:
+        raise LookupError(f'{who} constraint conversions: {len(f1)} / {len(f2)} candidates')
+    f1, f2 = f1[0], f2[0]
+    ctx.use(f1)
+    ctx.use(f2)
+    uids = [Opaque('ast::entity::EntityUID', f'uid{i}') for i in range(2)]
+    jsons = [Opaque('entities::json::value::TypeAndId', f'uid{i} as JSON') for i in range(2)]
+    ety, ety_txt = Opaque('ast::entity::EntityType', 'entity type'), Opaque('smol_str::SmolStr', 'entity type as text')
+    tok = {u.id: f'uid{i}' for i, u in enumerate(uids)}
+    tok.update({ety.id: 'entity_type', ety_txt.id: 'entity_type'})
+    node = build(uids, ety)
+
+    def mk(ex):
+        ex.havoc_unknown = HAVOC
+        ex.max_paths = 400
+        ex.from_wrappers.add('FromJsonError')
+        install_maps(ex)
+        C.install(ex)
+        uidx, jidx = {u.id: i for i, u in enumerate(uids)}, {j.id: i for i, j in enumerate(jsons)}
+        ex.stub(r'TypeAndId as From<&.*EntityUID>>::from$|<&.*EntityUID as Into<.*TypeAndId>>::into$', lambda ex_, st, c, A: (lambda i: None if i is None else jsons[i])(uidx.get(getattr(strip(ex_, st, A[0]), 'id', None))),
+                'EntityUID -> TypeAndId (JSON form of uid i, opaque)')
+
+        def into_euid(ex_, st, c, A):
+            j = strip(ex_, st, A[0])
+            inner = strip(ex_, st, j.fields[0]) if isinstance(j, Agg) and j.fields else None
+            i = jidx.get(getattr(inner, 'id', None))
+            return None if i is None else ok(uids[i])
+        ex.stub(r'EntityUidJson::<.*>::into_euid$|EntityUidJson::into_euid$', into_euid, 'EntityUidJson::into_euid: the JSON form of uid i parses back to uid i (literal values are outside)')
+        ex.stub(r'(EntityType>?|T) as (ToSmolStr|ToString)>::(to_smolstr|to_string)$', lambda ex_, st, c, A: ety_txt if getattr(strip(ex_, st, A[0]), 'id', None) == ety.id else None, 'printing of the entity type (opaque text)')
+        ex.stub(r'EntityType( as [\w:]+)?>?::from_normalized_str$', lambda ex_, st, c, A: ok(ety) if getattr(strip(ex_, st, A[0]), 'id', None) == ety_txt.id else None, 'parsing the printed entity type gives the type back (C05)')
+        ex.stub(r'SmolStr::as_str$|<(smol_str::)?SmolStr as Deref>::deref$', lambda ex_, st, c, A: A[0], 'SmolStr as str')
+        ex.stub(r'<Vec<.*> as (std::ops::)?Index<RangeFull>>::index$', lambda ex_, st, c, A: A[0], 'Vec[..] (the whole vector as a slice)')
+        ex.stub(r'ActionConstraint::contains_only_action_types$', lambda ex_, st, c, A: ok(A[0]), 'contains_only_action_types: the uids are actions (precondition: the policy parsed)')
+        return ex
+    ex = mk(ctx.new_exec('core'))
+    outs = ex.run(f1, [node])
+    ctx.absorb(ex)
+    nm = f'{who} constraint AST -> EST -> AST[{label}]'
+    ctx.panic_summary(nm + ' (to EST)', outs, ex)
+    rets = [o for o in outs if o.kind == 'ret']
+    if len(rets) != 1:
+        raise NotEncoded(f'{nm}: AST -> EST gave {len(rets)} results')
+    est_val = rets[0].val
+    ex2 = mk(ctx.new_exec('core'))
+    outs2 = ex2.run(f2, [est_val])
+    ctx.absorb(ex2)
+    ctx.panic_summary(nm + ' (back to AST)', outs2, ex2)
+    rets2 = [o for o in outs2 if o.kind == 'ret']
+    orig = cshape(ex, rets[0].st, node, tok)
+    last = None
+    bad = []
+    for o in rets2:
+        good = isinstance(o.val, Agg) and o.val.variant == 'Ok' and cshape(ex2, o.st, o.val.fields[0], tok) == orig
+        last = cshape(ex2, o.st, o.val.fields[0], tok) if isinstance(o.val, Agg) and o.val.fields else repr(o.val)[:80]
+        bad.append(z3.And(o.pc + [z3.BoolVal(not good)]))
+    ctx.decide(f'{nm}/same constraint', [z3.Or(bad) if bad else T], ex=ex2, sample={'constraint': str(orig)[:160], 'est': repr(est_val)[:160], 'back': str(last)[:160]},
+               on_sat=lambda m: battery_replay(ctx, nm, 'est/scope_constraints.rs: scope constraint conversion', f'a {label} {who} constraint does not survive AST -> EST -> AST'))
+    ctx.decide(f'{nm}/paths-cover', [z3.Not(z3.Or([z3.And(o.pc) if o.pc else T for o in rets2]))], ex=ex2)
+    ctx.decide(f'{nm}/witness', [z3.Or([z3.And(o.pc) if o.pc else T for o in rets2] or [F])], expect='sat', ex=ex2)
+
+
+def cshape(ex, st, v, tok):
+    v = strip(ex, st, v)
+    if isinstance(v, Opaque):
+        return ('tok', tok.get(v.id, f'?{v.what}'))
+    if isinstance(v, Agg) and v.kind == 'variant':
+        if v.variant == 'Slot':
+            return ('Slot',)                 # the source location of a slot is not part of the constraint
+        return (v.variant,) + tuple(cshape(ex, st, f, tok) for f in v.fields)
+    if isinstance(v, Agg) and v.name == '~vec':
+        return ('vec',) + tuple(cshape(ex, st, f, tok) for f in v.fields)
+    if isinstance(v, Agg):
+        return (v.name,) + tuple(cshape(ex, st, f, tok) for f in v.fields)
+    return ('?', repr(v)[:40])
+
+
+def constraint_shapes():
+    eu = lambda u: Agg('variant', ER, 'EUID', [arc(u)])
+    slot = Agg('variant', ER, 'Slot', [none()])
+    return [('any', lambda u, t: Agg('variant', PRC, 'Any', [])), ('== entity', lambda u, t: Agg('variant', PRC, 'Eq', [eu(u[0])])), ('== slot', lambda u, t: Agg('variant', PRC, 'Eq', [slot])),
+            ('in entity', lambda u, t: Agg('variant', PRC, 'In', [eu(u[0])])), ('in slot', lambda u, t: Agg('variant', PRC, 'In', [slot])), ('is', lambda u, t: Agg('variant', PRC, 'Is', [arc(t)])),
+            ('is .. in entity', lambda u, t: Agg('variant', PRC, 'IsIn', [arc(t), eu(u[0])])), ('is .. in slot', lambda u, t: Agg('variant', PRC, 'IsIn', [arc(t), slot]))]
+
+
+def action_shapes():
+    AC = 'ast::policy::ActionConstraint'
+    return [('any', lambda u, t: Agg('variant', AC, 'Any', [])), ('== action', lambda u, t: Agg('variant', AC, 'Eq', [arc(u[0])])), ('in [one]', lambda u, t: Agg('variant', AC, 'In', [Agg('struct', '~vec', None, [arc(u[0])])])),
+            ('in [two]', lambda u, t: Agg('variant', AC, 'In', [Agg('struct', '~vec', None, [arc(u[0]), arc(u[1])])])), ('in []', lambda u, t: Agg('variant', AC, 'In', [Agg('struct', '~vec', None, [])]))]
+
+
+# ---------------------------------------------------------------------------------------------------------------- whole policy / template
+
+def policy_round_trip(ctx, has_cond, effect):
+    """ast::Template -> est::Policy -> ast::Template: effect, the three scope constraints, the condition and every annotation (key and value) land where they came from;
+    the component conversions are stubs that invert each other (own obligations above)"""
+    P = ctx.prog('core')
+    f1 = [f for f in P.find(r'>::from$', 'cedar-policy-core/src/est.rs') if len(f.args) == 1 and f.args[0][1].endswith('ast::policy::Template')]
+    f2 = P.find(r'>::try_into_ast_policy_or_template$', 'cedar-policy-core/src/est.rs')
+    if len(f1) != 1 or len(f2) != 1:
+        raise LookupError(f'policy conversions: {len(f1)} / {len(f2)} candidates')
+    f1, f2 = f1[0], f2[0]
+    ctx.use(f1)
+    ctx.use(f2)
+    tpl = Opaque('ast::policy::Template', 'the template')
+    comp = {k: Opaque(t, f'{k} constraint') for k, t in (('principal', 'ast::policy::PrincipalConstraint'), ('action', 'ast::policy::ActionConstraint'), ('resource', 'ast::policy::ResourceConstraint'))}
+    ecomp = {k: Opaque('est::scope_constraints::' + k.capitalize() + 'Constraint', f'{k} constraint as EST') for k in comp}
+    cond, econd = Opaque(AEX, 'condition'), Opaque(EEX, 'condition as EST')
+    akeys = [Opaque('ast::id::AnyId', f'annotation key {i}') for i in range(2)]
+    avals = [Agg('struct', 'ast::annotation::Annotation', None, [Opaque('smol_str::SmolStr', f'annotation value {i}'), Opaque('Option<Loc>', f'loc {i}')], ('val', 'loc')) for i in range(2)]
+    tok = {akeys[i].id: f'key{i}' for i in range(2)}
+    tok.update({avals[i].fields[0].id: f'value{i}' for i in range(2)})
+    tok.update({comp[k].id: k for k in comp})
+    tok.update({cond.id: 'condition'})
+    eff = Agg('variant', 'ast::policy::Effect', effect, [])
+    from ..models import key_id
+
+    def mk(ex):
+        ex.havoc_unknown = HAVOC
+        ex.max_paths = 400
+        ex.from_wrappers.add('FromJsonError')
+        install_maps(ex)
+        C.install(ex)
+        ex.invariants.append(key_id(akeys[0]) != key_id(akeys[1]))
+        return ex
+    ex = mk(ctx.new_exec('core'))
+    ex.stub(r'Template::effect$', lambda ex_, st, c, A: eff, 'Template::effect')
+    for k in comp:
+        ex.stub(rf'Template::{k}_constraint$', lambda ex_, st, c, A, k=k: ex_.new_cell(st, comp[k], k), f'Template::{k}_constraint')
+        ex.stub(rf'{k.capitalize()}Constraint as Into<.*{k.capitalize()}Constraint>>::into$', lambda ex_, st, c, A, k=k: ecomp[k] if getattr(strip(ex_, st, A[0]), 'id', None) == comp[k].id else None,
+                f'{k} constraint -> EST (own obligations per shape)')
+    ex.stub(r'Template::non_scope_constraints$', lambda ex_, st, c, A: some(ex_.new_cell(st, cond, 'cond')) if has_cond else none(), 'Template::non_scope_constraints')
+    ex.stub(r'Expr::<.*>::into_expr::<|ast::expr::<impl at [^>]*>::into_expr$', lambda ex_, st, c, A: econd if getattr(strip(ex_, st, A[0]), 'id', None) == cond.id else None, 'condition -> EST (own obligations per node kind)')
+    ex.stub(r'Template::annotations$', lambda ex_, st, c, A: Agg('struct', '~vec_iter', None, [Agg('tuple', None, None, [ex_.new_cell(st, akeys[i], 'k'), ex_.new_cell(st, avals[i], 'v')]) for i in range(2)]), 'Template::annotations: two annotations')
+    outs = ex.run(f1, [tpl])
+    ctx.absorb(ex)
+    nm = f'template AST -> EST -> AST[{effect}, {"with" if has_cond else "without"} condition, 2 annotations]'
+    ctx.panic_summary(nm + ' (to EST)', outs, ex)
+    rets = [o for o in outs if o.kind == 'ret']
+    if len(rets) != 1:
+        raise NotEncoded(f'{nm}: AST -> EST gave {len(rets)} results')
+    est_val = rets[0].val
+    ex2 = mk(ctx.new_exec('core'))
+    for k in comp:
+        ex2.stub(rf'{k.capitalize()}Constraint as TryInto<.*{k.capitalize()}Constraint>>::try_into$', lambda ex_, st, c, A, k=k: ok(comp[k]) if getattr(strip(ex_, st, A[0]), 'id', None) == ecomp[k].id else None,
+                 f'EST {k} constraint -> AST (own obligations per shape)')
+    ex2.stub(r'est::expr::<impl at [^>]*>::try_into_ast$|est::expr::Expr::try_into_ast$', lambda ex_, st, c, A: ok(cond) if getattr(strip(ex_, st, A[0]), 'id', None) == econd.id else None, 'EST condition -> AST (own obligations per node kind)')
+    ex2.stub(r'Expr::<.*>::slots$|ast::expr::<impl at [^>]*>::slots$|(^|::)Expr::slots$', lambda ex_, st, c, A: Agg('struct', '~vec_iter', None, []), 'the condition has no slots (templates keep slots in the scope)')
+
+    def tnew(ex_, st, c, A):
+        st.notes['new'] = list(A)
+        return Opaque('ast::policy::Template', 'rebuilt template')
+    ex2.stub(r'Template::new$', tnew, 'Template::new(id, loc, annotations, effect, principal, action, resource, condition), logged')
+    ex2.stub(r'as Iterator>::collect::<(ast::annotation::)?Annotations>$', lambda ex_, st, c, A: Agg('struct', '~annotations', None, list(A[0].fields)) if isinstance(A[0], Agg) and A[0].name == '~vec_iter' else None, 'collect into Annotations (the pairs)')
+    ex2.stub(r'Annotation::with_optional_value$', lambda ex_, st, c, A: Agg('struct', '~annotation', None, [A[0]]), 'Annotation::with_optional_value(value, loc) (term)')
+    pid = Opaque('ast::policy::PolicyID', 'policy id')
+    outs2 = ex2.run(f2, [est_val, some(pid)])
+    ctx.absorb(ex2)
+    ctx.panic_summary(nm + ' (back to AST)', outs2, ex2)
+    rets2 = [o for o in outs2 if o.kind == 'ret']
+    bad, last = [], None
+    for o in rets2:
+        A = o.st.notes.get('new')
+        good = isinstance(o.val, Agg) and o.val.variant == 'Ok' and A is not None and len(A) == 8
+        desc = None
+        if good:
+            ident = lambda v: tok.get(getattr(strip(ex2, o.st, v), 'id', None))
+            anns = strip(ex2, o.st, A[2])
+            pairs = []
+            for e in (anns.fields if isinstance(anns, Agg) else []):
+                k_, v_ = e.fields[0], strip(ex2, o.st, e.fields[1])
+                inner = v_.fields[0] if isinstance(v_, Agg) and v_.name == '~annotation' else None
+                vv = strip(ex2, o.st, inner.fields[0]) if isinstance(inner, Agg) and inner.variant == 'Some' else None
+                pairs.append((ident(k_), tok.get(getattr(vv, 'id', None))))
+            effv = strip(ex2, o.st, A[3])
+            c8 = A[7]
+            condv = (ident(c8.fields[0]) if isinstance(c8, Agg) and c8.variant == 'Some' else None) if isinstance(c8, Agg) else '?'
+            desc = (getattr(strip(ex2, o.st, A[0]), 'id', None) == pid.id, sorted(pairs), getattr(effv, 'variant', None), ident(A[4]), ident(A[5]), ident(A[6]), condv)
+            good = desc == (True, [('key0', 'value0'), ('key1', 'value1')], effect, 'principal', 'action', 'resource', 'condition' if has_cond else None)
+        last = desc
+        bad.append(z3.And(o.pc + [z3.BoolVal(not good)]))
+    ctx.decide(f'{nm}/every component lands where it came from', [z3.Or(bad) if bad else T], ex=ex2, sample={'rebuilt (id ok, annotations, effect, principal, action, resource, condition)': str(last)[:300]},
+               on_sat=lambda m: battery_replay(ctx, nm, 'est.rs: policy / template conversion', 'a policy component does not survive AST -> EST -> AST'))
+    ctx.decide(f'{nm}/paths-cover', [z3.Not(z3.Or([z3.And(o.pc) if o.pc else T for o in rets2]))], ex=ex2)
+    ctx.decide(f'{nm}/witness', [z3.Or([z3.And(o.pc) if o.pc else T for o in rets2] or [F])], expect='sat', ex=ex2)
+
+
 def families(ctx):
-    return [(f'round trip of a {label} node', (lambda label=label, b=b: round_trip(ctx, label, b))) for label, b in nodes()]
+    fam = [(f'round trip of a {label} node', (lambda label=label, b=b: round_trip(ctx, label, b))) for label, b in nodes()]
+    for who in ('principal', 'resource'):
+        fam += [(f'{who} constraint {label}', (lambda who=who, label=label, b=b: constraint_round_trip(ctx, who, label, b))) for label, b in constraint_shapes()]
+    fam += [(f'action constraint {label}', (lambda label=label, b=b: constraint_round_trip(ctx, 'action', label, b, action=True))) for label, b in action_shapes()]
+    fam += [(f'template {eff} cond={hc}', (lambda hc=hc, eff=eff: policy_round_trip(ctx, hc, eff))) for hc in (True, False) for eff in ('Permit', 'Forbid')]
+    return fam
 
 
 def run(ctx):
     ctx.run_families(families(ctx))
     ctx.guarded('native battery', lambda: battery_selftest(ctx))
     ctx.bounds += ['one expression node of each kind (if, &&, ||, 3 unary and 12 binary operators, attribute access, has, like, is, set and record with 2 members, extension call with 2 arguments, variable, slot) with opaque '
-                   'children that round-trip by induction hypothesis => expressions of any depth; containers with 2 members', f'native battery: {len(CONDS)} policies through Policy::to_json / Policy::from_json']
+                   'children that round-trip by induction hypothesis => expressions of any depth; containers with 2 members',
+                   'every scope-constraint shape (principal / resource: any, == entity, == slot, in entity, in slot, is, is-in entity, is-in slot; action: any, ==, in [0, 1, 2 actions]); whole template: both effects, with / without '
+                   'condition, two annotations', f'native battery: {len(CONDS) + len(POLICIES)} policies through Policy::to_json / Policy::from_json']
     ctx.assumptions += ['children are opaque: ast -> est of child i is an arbitrary EST e_i and est -> ast of e_i gives child i back (induction hypothesis); AST invariant used: && / || never have two boolean literals as children '
                         '(ExprBuilder::and / or fold them, and every AST is built through the builder)',
                         'leaves whose text form is out of reach are opaque and assumed to round-trip: printing and re-parsing of entity type names and extension function names (C05), ast::Pattern <-> EST pattern elements, '
                         'literal values (CedarValueJson), unknowns; the function of an extension call is assumed to be a known extension function',
-                        'NOT covered: JSON (serde) serialisation itself, scope constraints, annotations, effect, template links, policy sets, the PST and protobuf formats - most of C06']
-    return ctx.finish('Solver-decided expression-level round trip of the JSON policy format, executed from the MIR of ast/expr.rs, ast/expr_builder.rs and est/expr.rs: for every kind of expression node, AST -> EST '
+                        'NOT covered: JSON (serde) serialisation itself, entity uids / literal values as JSON, template links, policy sets, the PST and protobuf formats']
+    return ctx.finish('Solver-decided AST <-> EST round trip of the JSON policy format at three levels (expression nodes, scope constraints, whole template: effect, constraints, condition, annotations), executed from the MIR of ast/expr.rs, ast/expr_builder.rs and est/expr.rs: for every kind of expression node, AST -> EST '
                       '(generic walker, ExprBuilder::{unary_app, binary_app} dispatch, est::Builder) followed by EST -> AST (est::Expr::try_into_ast and the real ast constructors) yields a node of the same kind and operator '
                       'with the children in the same positions; the second run starts from the value the first one produced.')
